@@ -53,8 +53,14 @@ Definition pop_head (l : list nat) : option (nat * list nat) :=
 Definition pop_tail (l : list nat) : option (nat * list nat) :=
   match l with [] => None | _ => Some (last l 0%nat, removelast l) end.
 
+(* which end is popped: only randws.c pool_pop_wait looks at the context
+   (from_tail); fifo.c ignores it (from_tail = false there) and both
+   pool_pop_timedwait always pop the head *)
 Definition pop_unit (c : cfg) (l : list nat) : option (nat * list nat) :=
-  if from_tail c then pop_tail l else pop_head l.
+  match kind c with
+  | VPopWait => if from_tail c then pop_tail l else pop_head l
+  | _ => pop_head l
+  end.
 
 Definition is_nil (l : list nat) : bool := match l with [] => true | _ => false end.
 
